@@ -20,15 +20,19 @@ theorem decl_mem_or_dflt (T : Tables) (ty : Nat) : T.decl ty ∈ T.types ∨ T.d
   | none => right; rfl
   | some d => left; exact List.mem_of_getElem? h
 
+theorem decl_ok_of_schema (T : Tables) (hT : schemaCopyOK T = true) (sh : Shape) (ty : Nat)
+    (hh : T.handles sh ty = true) : (T.decl ty).copyOK = true ∧ T.allocs ty = true := by
+  simp only [Tables.handles, Bool.and_eq_true, beq_iff_eq] at hh
+  rcases decl_mem_or_dflt T ty with hm | hd
+  · have := (List.all_eq_true.1 hT) _ hm
+    simpa [hh.1, Tables.allocs] using this
+  · rw [hd] at hh; cases hh.1
+
 theorem kidOK_of_schema (T : Tables) (hT : schemaCopyOK T = true) (sh : Shape) (ty : Nat)
     (hh : T.handles sh ty = true) (i : Nat) : kidOK T sh ty i := by
+  have hok := (decl_ok_of_schema T hT sh ty hh).1
   simp only [Tables.handles, Bool.and_eq_true, beq_iff_eq] at hh
   obtain ⟨hcase, hshape⟩ := hh
-  have hok : (T.decl ty).copyOK = true := by
-    rcases decl_mem_or_dflt T ty with hm | hd
-    · have := (List.all_eq_true.1 hT) _ hm
-      simpa [hcase] using this
-    · rw [hd] at hcase; cases hcase
   simp only [TypeDecl.copyOK, Bool.and_eq_true, Bool.or_eq_true, beq_iff_eq] at hok
   unfold kidOK Tables.modeAt Tables.sharedAt
   cases sh with
@@ -62,9 +66,10 @@ theorem copy_erase (T : Tables) (hT : schemaCopyOK T = true) :
   | .tnil _, _ => rfl
   | .node sh a ty keys kids, n => by
     unfold copy
-    by_cases hh : T.handles sh ty = true
-    · simp only [hh, ite_true, Val.erase]
-      rw [copyK_erase T hT sh ty (kidOK_of_schema T hT sh ty hh) 0 kids (n + 1)]
+    by_cases hh : (T.handles sh ty && T.allocs ty) = true
+    · have hh1 : T.handles sh ty = true := by simp only [Bool.and_eq_true] at hh; exact hh.1
+      simp only [hh, ite_true, Val.erase]
+      rw [copyK_erase T hT sh ty (kidOK_of_schema T hT sh ty hh1) 0 kids (n + 1)]
     · simp [hh]
 theorem copyK_erase (T : Tables) (hT : schemaCopyOK T = true) (sh : Shape) (ty : Nat)
     (hk : ∀ i, kidOK T sh ty i) :
@@ -92,7 +97,7 @@ theorem copy_fresh (T : Tables) (hT : schemaCopyOK T = true) :
     obtain ⟨hh, hpk⟩ := hp
     have ih := copyK_fresh T hT sh ty (kidOK_of_schema T hT sh ty hh) 0 kids (n + 1) hpk
     unfold copy
-    simp only [hh, ite_true, mutAddrs]
+    simp only [hh, (decl_ok_of_schema T hT sh ty hh).2, Bool.and_self, ite_true, mutAddrs]
     refine ⟨by omega, ?_⟩
     intro x hx
     rcases List.mem_cons.1 hx with rfl | hx
